@@ -274,4 +274,20 @@ theorem blosum_relisting (m : Mode) (maxid : ℚ) {rows rows' : List Row} (hp : 
     ∃ f : Row → ℚ, blosum m maxid rows = rows.map f ∧ blosum m maxid rows' = rows'.map f :=
   blosum_perm m maxid hp hne
 
+/-- KNOWN FINDING `C16:gsc:relisting-changes-weights-on-derived-distance-ties`: "relisting permutes the GSC weights
+    whenever no two pairwise distances tie" is FALSE for the code as written. The four rows below have pairwise
+    distances 5/6, 1/2, 3/4, 7/12, 2/3, 5/12 (all distinct); after rows 2,3 merge, both remaining rows are at averaged
+    distance 5/8 from the new cluster and the first one LISTED joins: swapping rows 0 and 1 leaves the weight vector
+    unchanged, i.e. the two sequences exchange their weights 15/14 and 8/7. -/
+theorem gsc_relisting_fails_at :
+    let r0 : Row := [67, 69, 68, 65, 65, 68, 69, 65, 68, 69, 65, 65]
+    let r1 : Row := [69, 65, 67, 65, 68, 65, 68, 69, 68, 65, 69, 68]
+    let r2 : Row := [68, 65, 69, 65, 68, 68, 69, 65, 68, 69, 68, 68]
+    let r3 : Row := [69, 65, 65, 68, 68, 68, 65, 65, 67, 69, 68, 68]
+    gsc (α := ℚ) Mode.text [r0, r1, r2, r3] = [15/14, 8/7, 25/28, 25/28] ∧
+    gsc (α := ℚ) Mode.text [r1, r0, r2, r3] = [15/14, 8/7, 25/28, 25/28] ∧
+    (diffMx (α := ℚ) Mode.text [r0, r1, r2, r3]).toList =
+      [0, 5/6, 1/2, 3/4, 5/6, 0, 7/12, 2/3, 1/2, 7/12, 0, 5/12, 3/4, 2/3, 5/12, 0] := by
+  decide +kernel
+
 end EaselModel.Props.C16
